@@ -18,6 +18,12 @@ package engine
 // Oracle (from the statement): once Put(lock) returned nil for an object that Get could
 // read just before, Get/Head of that object must succeed with identical bytes after every
 // later step until epoch > lock expiration.
+// The verdict uses nothing else.  When a protected object is unreadable the monitor ALSO
+// asks every shard for its own view of the object (available / no record / marked as
+// garbage / tombstoned / expired), finds the shard whose answer the engine returned and
+// which tombstone object (accepted or rejected by the engine) still sits there: this only
+// names the class of the loss (class key), so that a new way of losing a locked object
+// is not hidden behind an already known one that needs the same history.
 
 import (
 	"bytes"
@@ -42,6 +48,7 @@ import (
 	meta "github.com/nspcc-dev/neofs-node/pkg/local_object_storage/metabase"
 	"github.com/nspcc-dev/neofs-node/pkg/local_object_storage/shard"
 	"github.com/nspcc-dev/neofs-node/pkg/local_object_storage/shard/mode"
+	apistatus "github.com/nspcc-dev/neofs-sdk-go/client/status"
 	cid "github.com/nspcc-dev/neofs-sdk-go/container/id"
 	"github.com/nspcc-dev/neofs-sdk-go/object"
 	oid "github.com/nspcc-dev/neofs-sdk-go/object/id"
@@ -160,8 +167,13 @@ type vf08Obj struct {
 	exp     uint64 // own expiration epoch, 0 = none
 	lockExp uint64 // latest expiration among accepted locks, 0 = none accepted
 	locks   []vf08Lock
-	tombs   []oid.Address // tombstone objects tried for it (accepted or not)
+	tombs   []vf08Tomb // tombstone objects tried for it (accepted or not)
 	lost    bool
+}
+
+type vf08Tomb struct {
+	addr     oid.Address
+	accepted bool // StorageEngine.Put returned nil for it
 }
 
 type vf08Lock struct {
@@ -293,22 +305,154 @@ func (v *vf08Env) envSig() string {
 }
 
 func (v *vf08Env) retrievable(o *vf08Obj) (bool, string) {
+	ok, why, _ := v.read(o)
+	return ok, why
+}
+
+// read is the observation the verdict is based on; class names how the read failed.
+func (v *vf08Env) read(o *vf08Obj) (ok bool, why, class string) {
 	ctx := context.Background()
 	got, err := v.e.Get(ctx, o.addr)
 	if err != nil {
-		return false, "Get: " + vf08Err(err)
+		return false, "Get: " + vf08Err(err), "get-" + vf08ErrClass(err)
 	}
 	if !bytes.Equal(got.Marshal(), o.bin) {
-		return false, "Get returned different bytes"
+		return false, "Get returned different bytes", "get-different-bytes"
 	}
 	hdr, err := v.e.Head(ctx, o.addr, false)
 	if err != nil {
-		return false, "Head: " + vf08Err(err)
+		return false, "Head: " + vf08Err(err), "head-" + vf08ErrClass(err)
 	}
 	if !bytes.Equal(hdr.CutPayload().Marshal(), o.hdrBin) {
-		return false, "Head returned a different header"
+		return false, "Head returned a different header", "head-different-header"
 	}
-	return true, ""
+	return true, "", ""
+}
+
+func vf08ErrClass(err error) string {
+	switch {
+	case errors.Is(err, apistatus.ErrObjectAlreadyRemoved):
+		return "already-removed"
+	case errors.Is(err, apistatus.ErrObjectNotFound):
+		return "not-found"
+	case shard.IsErrObjectExpired(err):
+		return "expired"
+	}
+	return "other-error"
+}
+
+// shardView is what one shard itself says about the object.
+func (v *vf08Env) shardView(s *vf08Shard, a oid.Address) string {
+	if s.sh.GetMode().NoMetabase() {
+		return "no-metabase"
+	}
+	ok, err := s.sh.Exists(a, false)
+	switch {
+	case err == nil && ok:
+		return "available"
+	case err == nil:
+		return "no-record"
+	case errors.Is(err, apistatus.ErrObjectAlreadyRemoved):
+		return "tombstoned"
+	case shard.IsErrObjectExpired(err):
+		return "expired"
+	case errors.Is(err, apistatus.ErrObjectNotFound):
+		return "garbage-marked"
+	}
+	return "error"
+}
+
+// stores tells whether shard s still keeps object a in any form the monitor can see
+// through exported interfaces: blob, readable metadata or a garbage-marked record.
+func (v *vf08Env) stores(s *vf08Shard, a oid.Address) bool {
+	if ok, err := s.inner.Exists(a); err == nil && ok {
+		return true
+	}
+	if s.sh.GetMode().NoMetabase() {
+		return false
+	}
+	ok, err := s.sh.Exists(a, true)
+	return ok || err != nil
+}
+
+// diagnose names what makes the lock-protected object x unreadable: it walks the shards
+// in the order the engine reads them and reports the first shard whose own answer ends
+// the engine's search (tombstoned / expired / claims to have it), with the role of that
+// shard (does it hold the object's blob, does it hold a live lock) and, for a tombstoned
+// answer, whether a tombstone the engine ACCEPTED or one it REJECTED (and should have
+// rolled back) is stored there.  When no shard is decisive (every shard said "not here",
+// which the engine skips), it lists what the shards that physically hold the blob say.
+// Diagnosis only: never decides whether there is a violation.
+func (v *vf08Env) diagnose(x *vf08Obj, holders []int, lockOn map[int]bool) (cause string, views []string) {
+	isHolder := map[int]bool{}
+	for _, h := range holders {
+		isHolder[h] = true
+	}
+	role := func(i int) string {
+		r := "non-holder"
+		if isHolder[i] {
+			r = "holder"
+		}
+		if lockOn[i] {
+			return r + "-with-lock"
+		}
+		return r + "-without-lock"
+	}
+	byID := map[string]*vf08Shard{}
+	for _, s := range v.shards {
+		byID[s.id.String()] = s
+	}
+	heldBut := map[string]bool{}
+	lockWord := func(i int) string {
+		if lockOn[i] {
+			return "with-lock"
+		}
+		return "without-lock"
+	}
+	for _, w := range v.e.sortedShards(x.addr.Object()) {
+		s := byID[w.ID().String()]
+		if s == nil {
+			continue
+		}
+		view := v.shardView(s, x.addr)
+		views = append(views, fmt.Sprintf("s%d(%s)=%s", s.idx, role(s.idx), view))
+		if isHolder[s.idx] {
+			heldBut[view+"-"+lockWord(s.idx)] = true
+		}
+		if cause != "" {
+			continue
+		}
+		switch view {
+		case "tombstoned":
+			kind := "tombstone-record-without-tombstone-object"
+			for _, t := range x.tombs {
+				if !v.stores(s, t.addr) {
+					continue
+				}
+				if t.accepted {
+					kind = "accepted-tombstone-stored"
+					break
+				}
+				kind = "rejected-tombstone-still-stored"
+			}
+			cause = fmt.Sprintf("answered-by-shard-%s:%s", lockWord(s.idx), kind)
+		case "expired", "available", "error":
+			cause = fmt.Sprintf("answered-by-shard-%s:%s", lockWord(s.idx), view)
+		}
+	}
+	if cause == "" {
+		var ms []string
+		for m := range heldBut {
+			ms = append(ms, m)
+		}
+		sort.Strings(ms)
+		if len(ms) == 0 {
+			cause = "no-holder"
+		} else {
+			cause = "holders-say:" + strings.Join(ms, "+")
+		}
+	}
+	return
 }
 
 func vf08Err(err error) string {
@@ -420,15 +564,32 @@ func vf08GenCase(r *verifkit.Run, idx int, nOps int) vf08Case {
 		c.objExp = append(c.objExp, e)
 	}
 	epoch := uint64(1)
-	// start with the objects stored so that histories are dense in protected objects
-	for i := range nObj {
-		c.ops = append(c.ops, vf08Op{kind: "put", obj: i, perm: rng.Perm(c.nShards)})
-	}
 	// Directed (still seeded) prefix in most cases: keep one shard away from a lock
 	// broadcast (mode or put failure), then bring it back - locks that live on a subset of
-	// the shards are where the protection is fragile.
-	if rng.IntN(10) < 7 {
-		sh, ob := rng.IntN(c.nShards), rng.IntN(nObj)
+	// the shards are where the protection is fragile.  Some objects are first stored
+	// inside that window too (the locked one in half of the cases): an object written
+	// while the shard the engine prefers for it is out of service lives on another
+	// shard, so after the window the engine reads (and broadcasts may reach) a shard
+	// that has neither the object nor its lock before the shard that has both.
+	directed := rng.IntN(10) < 7
+	sh, ob := rng.IntN(c.nShards), rng.IntN(nObj)
+	inWindow := make([]bool, nObj)
+	if directed {
+		for i := range nObj {
+			if i == ob {
+				inWindow[i] = rng.IntN(2) == 0
+			} else {
+				inWindow[i] = rng.IntN(4) == 0
+			}
+		}
+	}
+	// start with the objects stored so that histories are dense in protected objects
+	for i := range nObj {
+		if !inWindow[i] {
+			c.ops = append(c.ops, vf08Op{kind: "put", obj: i, perm: rng.Perm(c.nShards)})
+		}
+	}
+	if directed {
 		how := rng.IntN(3)
 		block := vf08Op{kind: "mode", shard: sh, m: mode.ReadOnly, perm: rng.Perm(c.nShards)}
 		unblock := vf08Op{kind: "mode", shard: sh, m: mode.ReadWrite, perm: rng.Perm(c.nShards)}
@@ -439,9 +600,19 @@ func vf08GenCase(r *verifkit.Run, idx int, nOps int) vf08Case {
 			block = vf08Op{kind: "putfail", shard: sh, flag: true, perm: rng.Perm(c.nShards)}
 			unblock = vf08Op{kind: "putfail", shard: sh, flag: false, perm: rng.Perm(c.nShards)}
 		}
-		c.ops = append(c.ops, block,
+		c.ops = append(c.ops, block)
+		for i := range nObj {
+			if inWindow[i] {
+				c.ops = append(c.ops, vf08Op{kind: "put", obj: i, perm: rng.Perm(c.nShards)})
+			}
+		}
+		c.ops = append(c.ops,
 			vf08Op{kind: "lock", obj: ob, lockExp: epoch + uint64(1+rng.IntN(4)), perm: rng.Perm(c.nShards)},
 			unblock)
+		if rng.IntN(2) == 0 {
+			// a removal attempt right after the window, in any visiting order
+			c.ops = append(c.ops, vf08Op{kind: "tomb", obj: ob, perm: rng.Perm(c.nShards)})
+		}
 	}
 	for len(c.ops) < nOps {
 		op := vf08Op{obj: rng.IntN(nObj), shard: rng.IntN(c.nShards), perm: rng.Perm(c.nShards)}
@@ -616,7 +787,15 @@ func vf08RunAttempt(r *verifkit.Run, c vf08Case) (res vf08Result) {
 					}
 				}
 			} else {
-				o.tombs = append(o.tombs, b.Address())
+				o.tombs = append(o.tombs, vf08Tomb{b.Address(), err == nil})
+				if err != nil {
+					// evidence only: what a rejected tombstone broadcast leaves behind
+					for _, s := range v.shards {
+						if v.stores(s, b.Address()) {
+							res.count("rejected_tombstones_still_stored_on_a_shard_after_put_returned", 1)
+						}
+					}
+				}
 				if err == nil {
 					res.count("op_tombstone_accepted", 1)
 					trigger = "tombstone-accepted"
@@ -638,6 +817,19 @@ func vf08RunAttempt(r *verifkit.Run, c vf08Case) (res vf08Result) {
 				}
 				if wasProtected {
 					res.count("tombstone_attempts_on_protected_objects", 1)
+					if hs := v.blobOn(o.addr); len(hs) > 0 {
+						first := v.e.sortedShards(o.addr.Object())[0].ID().String()
+						away := true
+						for _, h := range hs {
+							away = away && v.shards[h].id.String() != first
+						}
+						if away {
+							res.count("tombstone_attempts_on_protected_objects_stored_away_from_preferred_shard", 1)
+							if trigger == "tombstone-rolled-back" {
+								res.count("tombstone_rollbacks_with_protected_object_away_from_preferred_shard", 1)
+							}
+						}
+					}
 					res.distinct = append(res.distinct, fmt.Sprintf("tomb|n%d|%s|obj%v|lock%v|visited%v|%s", c.nShards, v.envSig(), v.blobOn(o.addr), vf08LockShards(v, o), got, trigger))
 				}
 			}
@@ -695,11 +887,12 @@ func vf08RunAttempt(r *verifkit.Run, c vf08Case) (res vf08Result) {
 			}
 			holders, lockOn, rel := v.lockPlacement(x)
 			res.distinct = append(res.distinct, fmt.Sprintf("chk|n%d|%s|%s|obj%v|lock%v|%s", c.nShards, trigger, v.envSig(), holders, vf08Keys(lockOn), rel))
-			ok, why := v.retrievable(x)
+			ok, why, readClass := v.read(x)
 			if ok {
 				continue
 			}
 			x.lost = true
+			cause, views := v.diagnose(x, holders, lockOn)
 			deg := ""
 			for _, m := range v.modes() {
 				if m.NoMetabase() && trigger == "gc" {
@@ -712,16 +905,18 @@ func vf08RunAttempt(r *verifkit.Run, c vf08Case) (res vf08Result) {
 			}
 			tombOn := map[int]bool{}
 			for _, t := range x.tombs {
-				for _, i := range v.blobOn(t) {
+				for _, i := range v.blobOn(t.addr) {
 					tombOn[i] = true
 				}
 			}
 			res.findings = append(res.findings, vf08Finding{
-				key:  fmt.Sprintf("lost|after-%s|%s%s%s", trigger, rel, expd, deg),
-				what: fmt.Sprintf("step %d (%s): %s is locked until epoch %d (now %d) but not retrievable: %s; shards [%s], object blob on %v, lock blobs on %v, tombstone blobs on %v", step, desc, x.label, x.lockExp, v.epoch.CurrentEpoch(), why, v.envSig(), holders, vf08Keys(lockOn), vf08Keys(tombOn)),
+				// (own expiration is part of the description only: when it matters the cause says "expired")
+				key:  fmt.Sprintf("lost|after-%s|%s%s|%s|%s", trigger, rel, deg, readClass, cause),
+				what: fmt.Sprintf("step %d (%s): %s is locked until epoch %d (now %d) but not retrievable: %s; shards [%s], object blob on %v, lock blobs on %v, tombstone blobs on %v%s; shards' own views in read order: %s", step, desc, x.label, x.lockExp, v.epoch.CurrentEpoch(), why, v.envSig(), holders, vf08Keys(lockOn), vf08Keys(tombOn), expd, strings.Join(views, " ")),
 				replay: map[string]any{"case_index": c.idx, "shards": c.nShards, "error_threshold": c.thr, "object": x.label, "object_expiration": x.exp,
 					"lock_expiration": x.lockExp, "epoch": v.epoch.CurrentEpoch(), "ops": append([]string(nil), res.opLog...), "why": why,
-					"object_blob_on_shards": holders, "lock_blobs_on_shards": vf08Keys(lockOn), "tombstone_blobs_on_shards": vf08Keys(tombOn), "shard_modes": v.envSig()},
+					"object_blob_on_shards": holders, "lock_blobs_on_shards": vf08Keys(lockOn), "tombstone_blobs_on_shards": vf08Keys(tombOn), "shard_modes": v.envSig(),
+					"read_failure": readClass, "cause": cause, "shard_views_in_read_order": views},
 			})
 		}
 	}
@@ -944,22 +1139,24 @@ func vf08RunScheduleOnce(r *verifkit.Run, s vf08Sched) (orderMiss bool) {
 		return false
 	}
 	x.locks = append(x.locks, vf08Lock{lock.Address(), 100})
-	x.tombs = append(x.tombs, tomb.Address())
+	x.tombs = append(x.tombs, vf08Tomb{tomb.Address(), errT == nil})
 	check := func(stage string) bool {
-		ok, why := v.retrievable(x)
+		ok, why, readClass := v.read(x)
 		if ok {
 			return true
 		}
 		holders, lockOn, rel := v.lockPlacement(x)
+		cause, views := v.diagnose(x, holders, lockOn)
 		tst := "tombstone-rejected"
 		if errT == nil {
 			tst = "tombstone-accepted"
 		}
-		r.Violation(fmt.Sprintf("lost|concurrent-lock-tombstone|%s|%s|%s", tst, stage, rel),
-			fmt.Sprintf("lock accepted concurrently with a tombstone broadcast (tombstone err=%s; first started: %v; blob writes interleaved as %s); %s the object is not retrievable: %s; object blob on %v, lock blobs on %v", vf08Err(errT), map[bool]string{true: "lock", false: "tombstone"}[s.lockFirst], trace, stage, why, holders, vf08Keys(lockOn)),
+		r.Violation(fmt.Sprintf("lost|concurrent-lock-tombstone|%s|%s|%s|%s|%s", tst, stage, rel, readClass, cause),
+			fmt.Sprintf("lock accepted concurrently with a tombstone broadcast (tombstone err=%s; first started: %v; blob writes interleaved as %s); %s the object is not retrievable: %s; object blob on %v, lock blobs on %v; shards' own views in read order: %s", vf08Err(errT), map[bool]string{true: "lock", false: "tombstone"}[s.lockFirst], trace, stage, why, holders, vf08Keys(lockOn), strings.Join(views, " ")),
 			map[string]any{"schedule_index": s.idx, "shards": s.nShards, "lock_order": s.permL, "tombstone_order": s.permT, "lock_started_first": s.lockFirst,
 				"blob_write_interleaving": string(trace), "duplicate_copy_on": s.dupOn, "lock_err": vf08Err(errL), "tombstone_err": vf08Err(errT),
-				"lock_visited": gotL, "tombstone_visited": gotT, "stage": stage, "why": why})
+				"lock_visited": gotL, "tombstone_visited": gotT, "stage": stage, "why": why,
+				"read_failure": readClass, "cause": cause, "shard_views_in_read_order": views})
 		return false
 	}
 	if !check("right-after") {
@@ -979,7 +1176,7 @@ func TestVerif_C08(t *testing.T) {
 	r := verifkit.Start(t, "C08", "exploration")
 	defer r.Finish()
 	cases, scheds, nOps := r.Pick(200, 4000), r.Pick(200, 4000), 18
-	r.SetRule(fmt.Sprintf("(a) %d seeded histories x %d ops on engines with 2-3 real shards: object puts (with/without own expiration), lock puts (expiring 0-4 epochs ahead), tombstone puts, shard mode flips (rw/ro/degraded-ro), per-shard put-failure toggles, GC passes, epoch advances, evacuations; every broadcast runs in a seed-chosen shard visiting order (runs with another observed order are discarded and repeated). (b) %d constructed lock||tombstone schedules (both broadcasts parked before every blob write, seeded interleaving of the writes, both visiting orders and the starting broadcast chosen) followed by GC. distinct = (trigger op, shard modes/put failures, shards holding object / lock, visiting order) signatures of invariant checks on lock-protected objects and of tombstone attempts against them; schedule signatures", cases, nOps, scheds))
+	r.SetRule(fmt.Sprintf("(a) %d seeded histories x %d ops on engines with 2-3 real shards: object puts (with/without own expiration), lock puts (expiring 0-4 epochs ahead), tombstone puts, shard mode flips (rw/ro/degraded-ro), per-shard put-failure toggles, GC passes, epoch advances, evacuations; objects are first stored either while all shards serve or while one shard (possibly the one the engine prefers for them) is read-only/failing, so that they live away from their preferred shard; every broadcast runs in a seed-chosen shard visiting order (runs with another observed order are discarded and repeated). (b) %d constructed lock||tombstone schedules (both broadcasts parked before every blob write, seeded interleaving of the writes, both visiting orders and the starting broadcast chosen) followed by GC. distinct = (trigger op, shard modes/put failures, shards holding object / lock, visiting order) signatures of invariant checks on lock-protected objects and of tombstone attempts against them; schedule signatures", cases, nOps, scheds))
 	r.Assume("a lock counts as accepted for a stored object when Put(lock) returned nil and Get of the target succeeded immediately before")
 	r.Assume("the lock protects while epoch <= its expiration epoch; forced removals (Delete/Drop) are not part of the workload; shards have no write-cache; only put failures are injected, reads never fail")
 	r.Assume("the order in which processExpiredObjects/isLocked visits shards cannot be observed; the chosen insertion order is realised there with probability >= 5/8")
@@ -1024,6 +1221,9 @@ func TestVerif_C08(t *testing.T) {
 	wg.Wait()
 	if r.Counter("protected_object_checks") == 0 || r.Counter("tombstone_attempts_on_protected_objects") == 0 || r.Counter("schedules_gc_passes_with_lock_accepted") == 0 {
 		r.Inconclusive("no lock-protected object was exercised")
+	}
+	if r.Counter("tombstone_rollbacks_with_protected_object_away_from_preferred_shard") == 0 {
+		r.Inconclusive("no tombstone broadcast was rolled back for a lock-protected object stored away from its preferred shard")
 	}
 	if sk := r.Counter("cases_skipped_orders_never_matched"); sk*10 > int64(cases+scheds) {
 		r.Inconclusive(fmt.Sprintf("%d cases never ran in their chosen visiting orders", sk))
